@@ -50,6 +50,11 @@ def Op.key : Op → Key
   | .del k => k
   | .get k => k
 
+/-- `ins` and `del` write the map, `get` only reads. -/
+def Op.isWrite : Op → Bool
+  | .get _ => false
+  | _ => true
+
 /-- Events of an execution.  `respond o r` carries the returned value `r` so that a trace
 is self-describing; `step` rejects a response whose value differs from the one fixed at the
 operation's map step (`none` for `ins`/`del`). -/
@@ -165,9 +170,138 @@ def writesKey (evs : List Ev) (e : Ev) (k : Key) : Bool :=
 def NoWriteIn (evs : List Ev) (k : Key) (lo hi : Nat) : Prop :=
   ∀ m, lo ≤ m → m < hi → ∀ e, evs[m]? = some e → writesKey evs e k = false
 
-/-- Every invoked operation has responded. -/
-def Complete (evs : List Ev) : Prop :=
-  ∀ t o op, Ev.invoke t o op ∈ evs → ∃ r, Ev.respond o r ∈ evs
+/-- Every invoked operation has responded (quiescence). -/
+def complete (evs : List Ev) : Bool :=
+  evs.all fun e =>
+    match e with
+    | .invoke _ o _ =>
+      evs.any fun e' => match e' with
+        | .respond o' _ => o' == o
+        | _ => false
+    | _ => true
+
+/-! ## 3. Executable acceptor for recorded concurrent histories
+
+A recorded history is a list of *completed* operations.  The two stamps of an operation are
+values of one global counter that is incremented at every reading, taken at invocation and
+at response, so `a.resStamp < b.invStamp` means "`a` completed before `b` began".
+
+`acceptR h` decides whether some well-formed R-execution explains `h`: whether the map
+step of every operation can be placed between its stamps (plus `daemon` steps anywhere) so
+that every `get` returns what the map holds at its step.  Keys are independent, so the
+question is decided per key.  For one key, a placement exists iff there is a linear order
+`L` of that key's operations such that
+  * `L` respects real time: if `a` is before `b` in `L` then `a.invStamp < b.resStamp`;
+  * replaying `L` on a single cell, every `get` returning `some v` finds `some v`.
+In the replay a `get` returning `none` *clears* the cell: `none` can always be explained by a
+`daemon` step just before the get's map step, but that step is a deletion and later reads
+see it (an entry that was observed absent/expired never reappears without a new insert).
+Other daemon steps only ever remove values and so never help to explain a history.
+
+Soundness does not depend on the search: `acceptR` re-checks the order found by the search
+with the independent checker `checkLin`. -/
+
+/-- One completed operation of a recorded history. -/
+structure HOp where
+  thread : Tid
+  invStamp : Nat
+  resStamp : Nat
+  op : Op
+  /-- value returned by a `get`; ignored for `ins`/`del` -/
+  result : Option Val
+  deriving DecidableEq, Repr, Inhabited
+
+/-- Effect of linearizing `a` on the single cell of its key: `none` = not allowed here. -/
+def applyOp (cur : Option Val) (a : HOp) : Option (Option Val) :=
+  match a.op, a.result with
+  | .ins _ v, _ => some (some v)
+  | .del _, _ => some none
+  | .get _, none => some none
+  | .get _, some v => if cur = some v then some cur else none
+
+/-- Replay a linear order of one key's operations on the cell. -/
+def replay (cur : Option Val) : List HOp → Bool
+  | [] => true
+  | a :: l =>
+    match applyOp cur a with
+    | some c => replay c l
+    | none => false
+
+/-- `L` respects real time: whoever comes first was invoked before the other responded. -/
+def orderOk : List HOp → Bool
+  | [] => true
+  | a :: l => l.all (fun b => decide (a.invStamp < b.resStamp)) && orderOk l
+
+/-- Independent certificate checker: `L` is a linearization of `ops` (all on one key). -/
+def checkLin (ops L : List HOp) : Bool :=
+  L.isPerm ops && orderOk L && replay none L
+
+/-- Search node: operations not yet linearized (a sublist of the key's operations, in the
+original order, hence canonical), the cell, and the order chosen so far (reversed). -/
+structure Node where
+  rem : List HOp
+  cur : Option Val
+  path : List HOp
+  deriving Repr
+
+/-- Every way of picking one element, with the rest in the original order. -/
+def picks {α : Type} : List α → List (α × List α)
+  | [] => []
+  | a :: r => (a, r) :: (picks r).map (fun p => (p.1, a :: p.2))
+
+/-- `a` may be linearized next: everything still pending responds after `a`'s invocation. -/
+def enabled (a : HOp) (rest : List HOp) : Bool :=
+  rest.all (fun b => decide (a.invStamp < b.resStamp))
+
+def expand (nd : Node) : List Node :=
+  (picks nd.rem).filterMap fun p =>
+    if enabled p.1 p.2 then
+      (applyOp nd.cur p.1).map (fun c => ⟨p.2, c, p.1 :: nd.path⟩)
+    else none
+
+def sameState (x y : Node) : Bool := x.cur == y.cur && x.rem == y.rem
+
+def insertNode (acc : List Node) (x : Node) : List Node :=
+  if acc.any (sameState x) then acc else x :: acc
+
+def dedupNodes (l : List Node) : List Node := l.foldl insertNode []
+
+/-- Breadth-first, one linearized operation per level, states merged per level. -/
+def levels : Nat → List Node → List Node
+  | 0, l => l
+  | d + 1, l => levels d (dedupNodes (l.flatMap expand))
+
+def searchKey (ops : List HOp) : Option (List HOp) :=
+  match levels ops.length [⟨ops, none, []⟩] with
+  | nd :: _ => some nd.path.reverse
+  | [] => none
+
+def acceptKey (ops : List HOp) : Bool :=
+  match searchKey ops with
+  | some L => checkLin ops L
+  | none => false
+
+def dedupKeys : List Key → List Key
+  | [] => []
+  | k :: r => if r.contains k then dedupKeys r else k :: dedupKeys r
+
+def keysOf (h : List HOp) : List Key := dedupKeys (h.map (fun a => a.op.key))
+
+/-- Operations of one thread do not overlap. -/
+def threadsOk : List HOp → Bool
+  | [] => true
+  | a :: r =>
+    r.all (fun b => a.thread != b.thread || decide (a.resStamp < b.invStamp)
+      || decide (b.resStamp < a.invStamp)) && threadsOk r
+
+/-- Well-formed record: every operation is invoked before it responds; threads are
+sequential. -/
+def wfHistory (h : List HOp) : Bool :=
+  h.all (fun a => decide (a.invStamp < a.resStamp)) && threadsOk h
+
+/-- The acceptor. -/
+def acceptR (h : List HOp) : Bool :=
+  wfHistory h && (keysOf h).all (fun k => acceptKey (h.filter (fun a => a.op.key == k)))
 
 end ConcR
 end MiniMoka
